@@ -20,6 +20,10 @@ output "total" {
   value = max(var.size + 1, 2)
 }
 
+exports {
+  note = "nested targetables"
+}
+
 output "shout" {
   value = upper(var.name, "en")
 }
@@ -237,6 +241,7 @@ module "kid" {
   source = "./child"
   name   = "world"
   size   = local.ports[0]
+  region = var.region
 }
 
 output "instance_ids" {
